@@ -2157,7 +2157,7 @@ fn do_render_node<T: Write, D: TextDecorator>(
             pushed_style.unwind(renderer);
             Finished(None)
         }
-        Table(tab) => render_table_tree(renderer, tab, err_out)?,
+        Table(tab) => render_table_tree(renderer, tab, pushed_style, err_out)?,
         TableRow(row, false) => render_table_row(renderer, row, pushed_style, err_out),
         TableRow(row, true) => render_table_row_vert(renderer, row, pushed_style, err_out),
         TableBody(_) => unimplemented!("Unexpected TableBody while rendering"),
@@ -2207,6 +2207,7 @@ fn do_render_node<T: Write, D: TextDecorator>(
 fn render_table_tree<T: Write, D: TextDecorator>(
     renderer: &mut TextRenderer<D>,
     table: RenderTable,
+    pushed_style: PushedStyleInfo,
     _err_out: &mut T,
 ) -> render::Result<TreeMapResult<'static, TextRenderer<D>, RenderNode, Option<SubRenderer<D>>>> {
     /* Now lay out the table. */
@@ -2306,7 +2307,10 @@ fn render_table_tree<T: Write, D: TextDecorator>(
 
     Ok(TreeMapResult::PendingChildren {
         children: table.into_rows(col_widths, vert_row),
-        cons: Box::new(|_, _| Ok(Some(None))),
+        cons: Box::new(|renderer, _| {
+            pushed_style.unwind(renderer);
+            Ok(Some(None))
+        }),
         prefn: None,
         postfn: None,
     })
